@@ -30,6 +30,13 @@ func LoadLTS(path string) (*LTS, error) {
 	l := &LTS{Key: map[string]int{}, Init: 0}
 	haveInit := false
 	state := func(raw json.RawMessage) int {
+		// TLC does not print functions in a canonical key order: re-serialise (Go sorts object keys)
+		var v interface{}
+		if json.Unmarshal(raw, &v) == nil {
+			if b, err := json.Marshal(v); err == nil {
+				raw = b
+			}
+		}
 		k := string(raw)
 		if i, ok := l.Key[k]; ok {
 			return i
